@@ -50,3 +50,4 @@ CFG = {'level': 'fault_enumeration',
                  'ref/refzip transcribes the documented restrictions correctly',
                  'strace -f reports every file-creating syscall of the traced child (thorough tier)',
                  'SHA-256 collisions do not occur']}
+CFG['level_text'] += ' Targets include directories holding only leftovers below subdirectories (a stale file, or empty directories): should extraction into one succeed, the tree must still equal the entries.'
